@@ -320,3 +320,53 @@ def m4b_verification_levels(ctx) -> None:
         else:
             ctx.violation("M4", calls[0], f"VerificationRule.{mname} computes level `{args[1] if len(args) > 1 else '?'}` and appends it as level len(self.{cache}): when a larger "
                           "size is requested before a smaller one the cache holds the wrong level at every index below it")
+
+
+def m6_product_enumeration(ctx) -> None:
+    """Counting (get_terms) and generation (get_sub_objects) of a product run over the same
+    index set: every composition utils.compositions(n, k, self.min_sizes, self.max_sizes)
+    gives, and for each of them every combination of the providers' entries, keyed by
+    _new_param of the children's parameters.  S0 proves the summary and completeness of
+    utils.compositions; a hand-made list of compositions in one of the two has no such proof
+    and makes the generated objects disagree with the counts."""
+    from ..core import pattern as PT
+    P = ctx.P
+    for mname, pidx in (("get_terms", 1), ("get_sub_objects", 0)):
+        m = P.need_method("CartesianProduct", mname, own=True)
+        f = m.node
+        ctx.analysed(m)
+        ps = [p for p in D.param_names(f) if p != "self"]
+        prov, n = ps[pidx], ps[-1]
+        pat = (f"for _M_sizes in utils.compositions({n}, len({prov}), self.min_sizes, self.max_sizes):\n"
+               f"    for _M_pairs in self.params_value_pairs_combinations(_M_sizes, {prov}):\n"
+               f"        pass")
+        loops = [l for l in walk_local(f) if isinstance(l, ast.For)]
+        outer = [l for l in f.body if isinstance(l, ast.For)]
+        hit = [l for l in outer if PT.match(PT.compile_pattern(pat.replace("        pass", "        _A_")), l) is not None] if False else []
+        ok = False
+        for l in outer:
+            it = l.iter
+            if isinstance(it, ast.Name):
+                ds = [d for d in D.definitions(f).get(it.id, []) if d[1] is not None]
+                if len(ds) != 1:
+                    ctx.violation("M6", l, f"CartesianProduct.{mname} takes its size compositions from `{it.id}`, which is bound in {len(ds)} places: every branch must be "
+                                  f"utils.compositions({n}, len({prov}), self.min_sizes, self.max_sizes), the only enumeration whose completeness is established (S0)")
+                    ok = None
+                    continue
+                it = ds[0][1]
+            if PT.match(PT.compile_pattern(f"utils.compositions({n}, len({prov}), self.min_sizes, self.max_sizes)"), it) is None \
+                    and PT.match(PT.compile_pattern(f"compositions({n}, len({prov}), self.min_sizes, self.max_sizes)"), it) is None:
+                continue
+            if not isinstance(l.target, ast.Name):
+                continue
+            sz = l.target.id
+            inner = [x for x in l.body if isinstance(x, ast.For) and PT.match(PT.compile_pattern(f"self.params_value_pairs_combinations({sz}, {prov})"), x.iter) is not None]
+            if inner and not C.guards(f, inner[0], within=l):
+                pairs = norm(inner[0].target)
+                if PT.find_all(inner[0], f"self._new_param(*(_M_p for _M_p, _M_o in {pairs}))"):
+                    ok = True
+        if ok:
+            ctx.ok("M6", f"CartesianProduct.{mname}: all compositions x all provider combinations, keyed by _new_param of the children's parameters")
+        elif ok is False:
+            ctx.violation("M6", f, f"CartesianProduct.{mname} must run over utils.compositions({n}, len({prov}), self.min_sizes, self.max_sizes) and, for each, over "
+                          f"params_value_pairs_combinations(sizes, {prov}), keyed by self._new_param(...)", construct=f"CartesianProduct.{mname} enumeration")
